@@ -44,7 +44,7 @@ Definition special_v6 (ip : N) : bool :=
   || ((65152 <=? hextet0 ip) && (hextet0 ip <=? 65215))    (* fe80::/10 link-local *)
   || ((64512 <=? hextet0 ip) && (hextet0 ip <=? 65023))    (* fc00::/7 unique local *)
   || ((hextet0 ip =? 8193) && (hextet1 ip =? 3512))        (* 2001:db8::/32 documentation *)
-  || ((16368 <=? hextet0 ip) && (hextet0 ip <=? 16383))    (* 3fff::/20 documentation (RFC 9637) *)
+  || ((hextet0 ip =? 16383) && (hextet1 ip <? 4096))       (* 3fff::/20 documentation (RFC 9637): 3fff:0000:: .. 3fff:0fff:ffff:... *)
   || (hextet0 ip =? 24320)                                 (* 5f00::/16 segment routing identifiers (RFC 9602), not globally reachable *)
   || match mapped_v4 ip with Some a => in_ranges a non_global_v4 | None => false end.
 
@@ -54,4 +54,4 @@ Definition global_unicast_v6 (ip : N) : bool :=
   (8192 <=? hextet0 ip) && (hextet0 ip <=? 16383)
   && negb ((hextet0 ip =? 8193) && (hextet1 ip <? 512))
   && negb ((hextet0 ip =? 8193) && (hextet1 ip =? 3512))
-  && negb ((16368 <=? hextet0 ip) && (hextet0 ip <=? 16383)).
+  && negb ((hextet0 ip =? 16383) && (hextet1 ip <? 4096)).
